@@ -28,7 +28,7 @@ import re
 ID = 'C12'
 PROFILES = ['dev', 'release']
 REPLAY_PROFILES = ['dev', 'release']
-TIME_LIMIT = {'quick': 420, 'thorough': 3000}
+TIME_LIMIT = {'quick': 900, 'thorough': 3000}
 BUDGET = 150
 FIRST_BUDGET = 40
 
